@@ -205,6 +205,52 @@ def cases(run, rng):
             except Exception:
                 pass
             yield {"label": "zoo:%s" % cn, "corr": corr[:6], "expr": "1", "known": None, "describe": {}}
+    # the alias handed to the CONSTRUCTOR (alias=...) is the alias set with as_(): every class whose constructor accepts the keyword
+    from pypika_tortoise.enums import DatePart, SqlTypes
+    for qc in qcs:
+        ctx = qc.SQL_CONTEXT
+        t = P.Table("t")
+        zq = T.Field("zq", table=t)
+        fa, fb = (lambda: T.Field("a", table=t)), (lambda: T.Field("b", table=t))
+        shapes_ = [lambda: (), lambda: (fa(),), lambda: (fa(), fb()), lambda: (fa(), 1), lambda: (fa(), fb(), 1), lambda: ("nm", fa()), lambda: ("day", 1, fa()),
+                   lambda: (fa(), ",", 1), lambda: (fa(), 1, 2), lambda: (fa(), 1, 2, "x"), lambda: (DatePart.year, fa()), lambda: (fa(), SqlTypes.INTEGER),
+                   lambda: (4,), lambda: (fa(), 0.5), lambda: ("day", fa(), fb()), lambda: (fa(), "p"), lambda: ("nm",), lambda: (5,), lambda: ({"k": 1},)]
+        for cls in classes:
+            cn = cls.__name__
+            if cn in termzoo.ABSTRACT or issubclass(cls, (P.queries.QueryBuilder, P.queries._SetOperation)):
+                continue
+            for sh in shapes_:
+                try:
+                    x0, x1 = cls(*sh()), cls(*sh(), alias="al")
+                    if not hasattr(x0, "as_"):
+                        break
+                    x0 = x0.as_("al")
+                    if isinstance(x0, T.AnalyticFunction):
+                        x0, x1 = x0.over(fb()), x1.over(fb())
+                    q0, q1 = qc.from_(t).select(x0, zq), qc.from_(t).select(x1, zq)
+                except Exception:
+                    continue
+                s0, s1 = sql(q0, ctx), sql(q1, ctx)
+                if s0.startswith("EXC") and s1.startswith("EXC"):
+                    continue
+                SEEN["i"] += 1
+                if s0 != s1:
+                    record("defining:constructor-alias", cn, "alias= keyword of the constructor vs as_()", qc, s1, s0)
+                break
+    # ... and an alias reference in the ORDER BY of a set operation needs the alias in the select list of the base query
+    for qc in QUERY_CLASSES:
+        ctx = qc.SQL_CONTEXT
+        t, u = P.Table("t"), P.Table("u")
+        q = ctx.quote_char
+        so = lambda sel: qc.from_(t).select(sel, t.b).union(qc.from_(u).select(u.a, u.b))  # noqa
+        s5 = sql(so(t.a).orderby(T.Field("foo").as_("sort_key")).orderby(T.Field("b").as_("b2"), order=P.enums.Order.desc), ctx)
+        SEEN["iii"] += 1
+        if not s5.startswith("EXC") and ("sort_key" in s5 or "b2" in s5 or " ORDER BY %sfoo%s,%sb%s DESC" % (q, q, q, q) not in s5):
+            record("alias-ref", "_SetOperation", "ORDER BY of a set operation names an alias its select list does not define", qc, s5, "... ORDER BY %sfoo%s,%sb%s DESC" % (q, q, q, q))
+        s6 = sql(so(t.a.as_("sort_key")).orderby(T.Field("foo").as_("sort_key")), ctx)
+        SEEN["iii"] += 1
+        if not s6.startswith("EXC") and not (s6.endswith(" ORDER BY %ssort_key%s" % (q, q)) or s6.endswith(" ORDER BY %sfoo%s" % (q, q))):
+            record("alias-ref", "_SetOperation", "ORDER BY of a set operation by a selected alias", qc, s6, "... ORDER BY <the alias or the expression>")
     # FROM / JOIN sources define an alias
     for qc in QUERY_CLASSES:
         ctx = qc.SQL_CONTEXT
